@@ -129,6 +129,12 @@ def run(ctx):
         if not summ or summ[0]["jobs"] != len(sel):
             raise vlib.Inconclusive("codec driver ran %s of %d jobs" % (summ, len(sel)))
         results.append((race, res))
+    # decoding is a function of the document: every document shape of TextShapes.tla (duplicate members, members differing in case,
+    # reordered members ...) is decoded eight times in one process
+    from checks import shapes
+    rows, _, _ = shapes.replay(ctx, deep_ok=False)
+    nshape = shapes.judge_c20(ctx, rows)
+    ctx.note("%d text document shapes decoded eight times each" % nshape)
     ncalls = 0
     ref = None
     gated_events = []
